@@ -7,6 +7,7 @@ import (
 	"go/token"
 	"go/types"
 	"regexp"
+	"sort"
 	"strings"
 
 	"golang.org/x/tools/go/ssa"
@@ -348,6 +349,7 @@ func rulesC18(c *Ctx) {
 	copyLiteralRule(c, "C18.copylit", func(name string) bool { return strings.HasPrefix(name, "reduce") || name == "Reduce" })
 	// Reduce's boolean short-cuts decide whether the stripped `true` placeholders disappear
 	shortcutsC09(c, tt, "C18.reduce")
+	parenCollapseC18(c)
 }
 
 // varargsOf returns the values stored into the variadic slice of a call.
@@ -500,7 +502,16 @@ func callstripC18(c *Ctx, lit *ssa.Function) {
 							cmp++
 						}
 					}
+					// every operator the splitter turns into a bound must be stripped
+					var missing []string
+					for _, o := range []string{"EQ", "LT", "LTE", "GT", "GTE"} {
+						if !ops[o] {
+							missing = append(missing, o)
+						}
+					}
 					switch {
+					case cmp >= 1 && len(missing) > 0:
+						c.Bad("C18.keepothers", k2, cc.Pos(), "comparisons with "+strings.Join(missing, ", ")+" are not stripped although ConditionExpr reads them as time bounds: such a bound survives next to the new window on every call")
 					case cmp >= 4:
 						c.OK("C18.keepothers", k2, cc.Pos(), "the replacement is limited to comparison operators")
 					case helper:
@@ -879,4 +890,62 @@ func stripperTotalRule(c *Ctx, rule string) {
 			}
 		}
 	}
+}
+
+// parenCollapseC18: Reduce keeps parentheses only around a binary expression.
+func parenCollapseC18(c *Ctx) {
+	p := c.P
+	c.Rule("C18.parencollapse", "reduceParenExpr rebuilds a ParenExpr only where the reduced inner expression was tested to be a *BinaryExpr: SetTimeRange wraps the previous condition in parentheses on every call and relies on the fold to drop parentheses around anything else (a nested group included), otherwise the condition gains one level per window")
+	f := p.SSAFunc(p.Func("reduceParenExpr"))
+	if f == nil {
+		c.Unk("C18.parencollapse", "reduceParenExpr", 0, "anchor not found")
+		return
+	}
+	n := 0
+	for _, b := range f.Blocks {
+		for _, in := range b.Instrs {
+			a, ok := in.(*ssa.Alloc)
+			if !ok || p.TypeStr(a.Type()) != "*ParenExpr" {
+				continue
+			}
+			n++
+			key := fmt.Sprintf("reduceParenExpr: rebuilt ParenExpr #%d", n)
+			// which type tests lead here?
+			kinds := map[string]bool{}
+			seen := map[*ssa.BasicBlock]bool{}
+			var up func(x *ssa.BasicBlock)
+			up = func(x *ssa.BasicBlock) {
+				if seen[x] {
+					return
+				}
+				seen[x] = true
+				for _, pr := range x.Preds {
+					if ifi, ok := pr.Instrs[len(pr.Instrs)-1].(*ssa.If); ok && pr.Succs[0] == x {
+						if ex, ok := ifi.Cond.(*ssa.Extract); ok {
+							if ta, ok := ex.Tuple.(*ssa.TypeAssert); ok {
+								kinds[p.TypeStr(ta.AssertedType)] = true
+								continue
+							}
+						}
+					}
+					up(pr)
+				}
+			}
+			up(b)
+			var names []string
+			for k := range kinds {
+				names = append(names, k)
+			}
+			sort.Strings(names)
+			switch {
+			case len(names) == 1 && names[0] == "*BinaryExpr":
+				c.OK("C18.parencollapse", key, a.Pos(), "only around a *BinaryExpr")
+			case len(names) == 0:
+				c.Bad("C18.parencollapse", key, a.Pos(), "parentheses are kept whatever the reduced inner expression is")
+			default:
+				c.Bad("C18.parencollapse", key, a.Pos(), "parentheses are also kept around "+strings.Join(names, ", ")+": nested groups no longer collapse and the condition grows by one level per SetTimeRange call")
+			}
+		}
+	}
+	c.Floor("C18.parencollapse", n, 1)
 }
